@@ -23,7 +23,7 @@ def cases(tier, rng):
     yield {'kind': 'mux', 'term': [['split', ['big_of'], [['count', True]]]], 'items': [5, 5, 5, 7, 7, 5]}
     yield {'kind': 'mux', 'term': [['split', ['key_of'], [['to_list']]]], 'items': []}
     yield {'kind': 'mux', 'term': [['roll', 3, 3, [['split', ['const', None], [['count', True]]]]]], 'items': [1, 2, 3, 4, 5, 6, 7]}
-    n = {'quick': 500, 'thorough': 10000, 'search': 600}[tier]
+    n = {'quick': 1500, 'thorough': 10000, 'search': 600}[tier]
     for _ in range(n):
         p = rng.choice(PREDS)
         g = muxgen.Gen(rng, {'nest': 1, 'time_split': False})
